@@ -13,13 +13,13 @@ def saturate (cbw : Bool) : Nat → St → St
 /-- environment event of the transition system for a fault kind -/
 def faultEv (kind : Nat) : Ev :=
   match kind with
-  | 0 | 1 | 2 | 7 => .readErr        -- read error, exhausted retries, handler error: Listen returns an error
+  | 0 | 1 | 2 | 7 | 10 => .readErr   -- read error, exhausted retries, handler error (10: a *fs.PathError): Listen returns an error
   | 3 | 4 => .writeErr
   | 5 => .linkChange
   | _ => .cancelParent
 
 /-- does the failure recover by re-dialling (link change, non-permission system-call error)? -/
-def recoverable (kind : Nat) : Bool := kind == 1 || kind == 4 || kind == 5 || kind == 8
+def recoverable (kind : Nat) : Bool := kind == 1 || kind == 4 || kind == 5 || kind == 8 || kind == 10
 
 /-- kinds 8 and 9: the initial multicast RA of the first connection fails (system-call error /
     other error) — before the task's goroutines exist; the classification of the error is the same
